@@ -302,6 +302,7 @@ theorem OnlyH.timersOK {o : List Obs} (h : OnlyH o) (c : Timers) : timersOK c o 
 the handler calls made (and ghost timer firings) -/
 structure Ext (s s' : St) (o : List Obs) (es : List Entry) : Prop where
   k : s'.k = s.k
+  z : s'.z = s.z
   maxSize : s'.maxSize = s.maxSize
   slots : s'.slots = s.slots
   ckpt : s'.ckpt = s.ckpt
@@ -311,34 +312,34 @@ structure Ext (s s' : St) (o : List Obs) (es : List Entry) : Prop where
   kv : s'.kv = (entriesOf o).foldl applyRec s.kv
 
 theorem Ext.refl (s : St) : Ext s s [] [] :=
-  ⟨rfl, rfl, rfl, rfl, rfl, OnlyH.nil, by simp [entriesOf], by simp [entriesOf]⟩
+  ⟨rfl, rfl, rfl, rfl, rfl, rfl, OnlyH.nil, by simp [entriesOf], by simp [entriesOf]⟩
 
 theorem Ext.trans {s s1 s2 : St} {o1 o2 : List Obs} {e1 e2 : List Entry}
     (h1 : Ext s s1 o1 e1) (h2 : Ext s1 s2 o2 e2) : Ext s s2 (o1 ++ o2) (e1 ++ e2) := by
-  refine ⟨h2.k.trans h1.k, h2.maxSize.trans h1.maxSize, h2.slots.trans h1.slots, h2.ckpt.trans h1.ckpt,
+  refine ⟨h2.k.trans h1.k, h2.z.trans h1.z, h2.maxSize.trans h1.maxSize, h2.slots.trans h1.slots, h2.ckpt.trans h1.ckpt,
     h2.af.trans h1.af, h1.onlyH.append h2.onlyH, ?_, ?_⟩
   · rw [entriesOf_append, List.append_assoc, h2.ents, ← List.append_assoc, h1.ents, List.append_assoc]
   · rw [entriesOf_append, List.foldl_append, ← h1.kv, h2.kv]
 
 /-- `Ext` only looks at the batching-relevant part of the start state -/
 theorem Ext.of_eq {s0 s s' : St} {o : List Obs} {es : List Entry} (h : Ext s0 s' o es)
-    (hk : s0.k = s.k) (hm : s0.maxSize = s.maxSize) (hs : s0.slots = s.slots) (hc : s0.ckpt = s.ckpt)
+    (hk : s0.k = s.k) (hz : s0.z = s.z) (hm : s0.maxSize = s.maxSize) (hs : s0.slots = s.slots) (hc : s0.ckpt = s.ckpt)
     (ha : s0.ackFails = s.ackFails)
     (hp : s0.pending = s.pending) (hkv : s0.kv = s.kv) : Ext s s' o es :=
-  ⟨h.k.trans hk, h.maxSize.trans hm, h.slots.trans hs, h.ckpt.trans hc, h.af.trans ha, h.onlyH,
+  ⟨h.k.trans hk, h.z.trans hz, h.maxSize.trans hm, h.slots.trans hs, h.ckpt.trans hc, h.af.trans ha, h.onlyH,
    by rw [← hp]; exact h.ents, by rw [← hkv]; exact h.kv⟩
 
 /-- a fired timer is noted (ghost) in front of the handler calls it may cause -/
 theorem Ext.cons_fired {s s' : St} {o : List Obs} {es : List Entry} (h : Ext s s' o es) (key : Bytes) (ts : Nat) :
     Ext s s' (.fired key ts :: o) es :=
-  ⟨h.k, h.maxSize, h.slots, h.ckpt, h.af, h.onlyH.cons_fired, by simpa [entriesOf] using h.ents,
+  ⟨h.k, h.z, h.maxSize, h.slots, h.ckpt, h.af, h.onlyH.cons_fired, by simpa [entriesOf] using h.ents,
    by simpa [entriesOf] using h.kv⟩
 
 theorem flush_ext (s : St) : Ext s (flush s).1 (flush s).2 [] := by
   unfold flush
   split
   · exact Ext.refl s
-  · exact ⟨rfl, rfl, rfl, rfl, rfl, OnlyH.nil.cons_handler, by simp [entriesOf], by simp [entriesOf]⟩
+  · exact ⟨rfl, rfl, rfl, rfl, rfl, rfl, OnlyH.nil.cons_handler, by simp [entriesOf], by simp [entriesOf]⟩
 
 theorem flush_pending (s : St) : (flush s).1.pending = [] := by
   unfold flush
@@ -358,8 +359,8 @@ theorem push_ext (s : St) (e : Entry) : Ext s (push s e) [] [e] := by
   split
   · rename_i hp
     have hp' : s.pending = [] := by simpa using hp
-    exact ⟨rfl, rfl, rfl, rfl, rfl, OnlyH.nil, by simp [entriesOf, hp'], by simp [entriesOf]⟩
-  · exact ⟨rfl, rfl, rfl, rfl, rfl, OnlyH.nil, by simp [entriesOf], by simp [entriesOf]⟩
+    exact ⟨rfl, rfl, rfl, rfl, rfl, rfl, OnlyH.nil, by simp [entriesOf, hp'], by simp [entriesOf]⟩
+  · exact ⟨rfl, rfl, rfl, rfl, rfl, rfl, OnlyH.nil, by simp [entriesOf], by simp [entriesOf]⟩
 
 theorem push_timers (s : St) (e : Entry) : (push s e).timers = s.timers := by
   unfold push
@@ -400,7 +401,7 @@ theorem fireLoop_ext (sr w : Nat) : ∀ (n : Nat) (s : St) (o0 : List Obs),
       split
       · exact ⟨[], [], by simp, Ext.refl s, rfl, rfl⟩
       · have h1 := ((addEntry_ext { s with timers := rest } (.timer sr key ts)).of_eq
-          (s := s) rfl rfl rfl rfl rfl rfl rfl).cons_fired key ts
+          (s := s) rfl rfl rfl rfl rfl rfl rfl rfl).cons_fired key ts
         obtain ⟨o, es, ho, hext, hu, htm⟩ := ih (addEntry { s with timers := rest } (.timer sr key ts)).1
           (o0 ++ .fired key ts :: (addEntry { s with timers := rest } (.timer sr key ts)).2)
         refine ⟨.fired key ts :: (addEntry { s with timers := rest } (.timer sr key ts)).2 ++ o,
@@ -1029,7 +1030,7 @@ theorem stepLive_ok {s : St} {p a g} (h : Inv base u0 s p a g) (hkpos : 0 < s.k)
               (wmState s sr ts).watermark s.timers.length (wmState s sr ts) []
             rw [ho]
             simp only [List.nil_append]
-            exact stepOK_go_ext0 h hs (hext.of_eq rfl rfl rfl rfl rfl rfl rfl) (by simp [userProcs, hu])
+            exact stepOK_go_ext0 h hs (hext.of_eq rfl rfl rfl rfl rfl rfl rfl rfl) (by simp [userProcs, hu])
           | bar id =>
             simp only [process]
             by_cases hk0 : sr < s.k
@@ -2154,6 +2155,101 @@ theorem deliveredHere_false : ∀ (obs : List Obs) (seen : List Nat), deliveredH
     | completed _ | stopped | redeployed _ =>
       simp only [deliveredHere] at h
       exact lift seen (fun y hy => hy) (by intro _ _ e; cases e) h
+
+/-! ## only admitted callers are served -/
+
+theorem barrier_kz (s : St) (sr id : Nat) : (barrier s sr id).1.k = s.k ∧ (barrier s sr id).1.z = s.z := by
+  have hf := flush_ext s
+  unfold barrier
+  simp only []
+  split
+  · exact ⟨rfl, rfl⟩
+  · split
+    · split <;> exact ⟨hf.k, hf.z⟩
+    · exact ⟨rfl, rfl⟩
+
+theorem process_kz (s : St) (sr : Nat) (it : Item) : (process s sr it).1.k = s.k ∧ (process s sr it).1.z = s.z := by
+  cases it with
+  | ev key pl t =>
+    have hx := addEntry_ext s (.user sr key pl t)
+    exact ⟨hx.k, hx.z⟩
+  | wm ts =>
+    simp only [process]
+    obtain ⟨o, es, ho, hext, _, _⟩ := fireLoop_ext sr (wmState s sr ts).watermark s.timers.length (wmState s sr ts) []
+    exact ⟨hext.k, hext.z⟩
+  | bar id =>
+    simp only [process]
+    split
+    · exact barrier_kz s sr id
+    · unfold barrierU
+      simp only []
+      split
+      · exact ⟨rfl, rfl⟩
+      · split
+        · exact barrier_kz s sr id
+        · exact ⟨rfl, rfl⟩
+  | done =>
+    simp only [process]
+    have hf := flush_ext s
+    exact ⟨hf.k, hf.z⟩
+
+/-- the numbers of deployed runners and of further admitted callers never change -/
+theorem step_kz (s : St) (a : Act) : (step s a).1.k = s.k ∧ (step s a).1.z = s.z := by
+  unfold step
+  split
+  · exact ⟨rfl, rfl⟩
+  · cases a with
+    | align sr it =>
+      simp only [stepLive]
+      split
+      · split <;> exact ⟨rfl, rfl⟩
+      · exact ⟨rfl, rfl⟩
+    | go sr =>
+      by_cases hsr : sr < s.k + s.z
+      · cases hs : s.slots sr with
+        | none => rw [stepLive_go_noop (Or.inr (by simp [hs]))]; exact ⟨rfl, rfl⟩
+        | some v =>
+          obtain ⟨it, b⟩ := v
+          cases b with
+          | false => rw [stepLive_go_noop (Or.inr (by simp [hs]))]; exact ⟨rfl, rfl⟩
+          | true => rw [stepLive_go_run hsr hs]; exact process_kz s sr it
+      · rw [stepLive_go_noop (Or.inl hsr)]; exact ⟨rfl, rfl⟩
+    | tick => have hx := timeout_ext s s.lastSet; exact ⟨hx.k, hx.z⟩
+    | stale => have hx := timeout_ext s s.prevSet; exact ⟨hx.k, hx.z⟩
+    | armFail => exact ⟨rfl, rfl⟩
+    | armDbFail => exact ⟨rfl, rfl⟩
+    | cancel sr => exact ⟨rfl, rfl⟩
+    | redeploy => exact ⟨rfl, rfl⟩
+
+/-- the consumer takes items only of callers the operator admits: senders below `k + z` -/
+theorem step_procs_lt (s : St) (a : Act) : ∀ x ∈ procsOf (step s a).2, x.1 < s.k + s.z := by
+  intro x hx
+  have hgo := step_procs s a x hx
+  subst hgo
+  by_cases hsr : x.1 < s.k + s.z
+  · exact hsr
+  · exfalso
+    unfold step at hx
+    split at hx
+    · cases hx
+    · rw [stepLive_go_noop (Or.inl hsr)] at hx
+      cases hx
+
+theorem runFrom_procs_lt : ∀ (as : List Act) (s : St) (acc : List Obs),
+    ∀ x ∈ procsOf (runFrom s acc as).2, x ∈ procsOf acc ∨ x.1 < s.k + s.z := by
+  intro as
+  induction as with
+  | nil => intro s acc x hx; exact Or.inl hx
+  | cons a r ih =>
+    intro s acc x hx
+    simp only [runFrom] at hx
+    rcases ih _ _ x hx with h | h
+    · rw [procsOf_append] at h
+      rcases List.mem_append.mp h with h | h
+      · exact Or.inl h
+      · exact Or.inr (step_procs_lt s a x h)
+    · rw [(step_kz s a).1, (step_kz s a).2] at h
+      exact Or.inr h
 
 /-! ## what a redeploy lets through -/
 
